@@ -1,0 +1,15 @@
+//go:build verif
+
+// Contracts for gpverify (contract-based deductive verification, see /verif/DESIGN.md).
+// This file contains comments only; with or without the build tag the compiled
+// package is identical.
+
+package plugin
+
+//@ func (*SecureConfig).Check
+//@   nopanic [C13.total]
+//@   ensures len(s.Checksum) == 0 ==> result0 == false && result1 == ErrSecureConfigNoChecksum   [C13.err]
+//@   ensures len(s.Checksum) != 0 && s.Hash == nil ==> result0 == false && result1 == ErrSecureConfigNoHash   [C13.err]
+//@   ensures result1 != nil ==> result0 == false   [C13.err]
+//@   ensures result1 == nil ==> (result0 <==> digest(cat_data(old(hdata)[s.Hash], filebytes(filePath)), "") == str(s.Checksum))   [C13.iff]
+//@   ensures open_files == old(open_files)   [C13.close]
